@@ -168,7 +168,7 @@ PROPS.update({
         "rule": "(document, header, schedule) triples: documents valid of each kind, truncated at every length (small ones), single-byte corruptions; 24 headers (none, each junk byte with LF / CRLF / bare CR, garbage, CR inside, CRCRLF, header only); schedules: 1-byte reads, fixed 2/3/7/8191/8192/8193, a two-chunk boundary at every offset of header + 16 bytes, random short reads, one big read; plus the data URL of every byte string with and without charset parameter; non-trivial = header present or >= 2 chunks; distinct by hash of (bytes, schedule)",
         "steps": [MAIN, asan(scale=10), miri(tiers=("thorough",))],
         "required_buckets": {"all": ["schedule:boundary:inside", "schedule:boundary:before", "schedule:boundary:exactly", "schedule:1", "schedule:fixed",
-                                     "schedule:random", "bare-CR-header", "header-never-ends", "both-err:truncated", "both-ok:regular",
+                                     "schedule:random", "bare-CR-header", "bare-CR-followed-by-junk-start-byte", "header-never-ends", "both-err:truncated", "both-ok:regular",
                                      "both-ok:index", "both-ok:hermes", "header-skipped:classic+CRLF", "header-skipped:classic+LF",
                                      "header-skipped:junk-byte+LF", "data-url:both-ok", "data-url:both-err"]},
         "assumptions": COMMON_ASSUME + ["the chunked reader never returns 0 before the end of the data"],
